@@ -22,6 +22,7 @@ Record dcase := {
   de : qop; dn : nat;
   dlu : list (QM * (list nat * QM * QM)); dchol : list (QM * QM); dsqrt : list (qi * qi);
   dnumc : bool; dnump : bool;      (* compare values of the Cholesky / of the PLU factors (false: an oracle value has no exact rational form) *)
+  dflag : bool;                    (* probed value of the flag plu_diagonal_negative_nan *)
   dpd : bool;                      (* positive definite: cholesky was called *)
   dtyC : dty; dtyP : dty; dtyL : dty; dtyU : dty;      (* classes of the implementation's results *)
   dC : QM; dP : QM; dL : QM; dU : QM;                  (* their dense forms (floats as exact rationals) *)
@@ -37,9 +38,9 @@ Definition dcheck (c : dcase) : bool :=
      dty_eqb (dtype r) (dtyC c) && dty_eqb (dtype r) (mirror (DtTri true) e) && okshape n (dto_op r)
      && (if dnumc c then close_mn (dtol2 c) (todense n (dto_op r)) n n (dC c) else true)
    else true) &&
-  (let '(P, L, U) := plu (lu_tab (dlu c)) sq e in
+  (let '(P, L, U) := plu (lu_tab (dlu c)) sq (dflag c) e in
    dty_eqb (dtype P) (dtyP c) && dty_eqb (dtype L) (dtyL c) && dty_eqb (dtype U) (dtyU c)
-   && dty_eqb (dtype P) (mirrorP e) && dty_eqb (dtype L) (mirror (DtTri true) e) && dty_eqb (dtype U) (mirror (DtTri false) e)
+   && dty_eqb (dtype P) (mirrorP e) && dty_eqb (dtype L) (mirrorL (dflag c) e) && dty_eqb (dtype U) (mirrorU (dflag c) e)
    && okshape n (dto_op P) && okshape n (dto_op L) && okshape n (dto_op U)
    && (if dnump c then
          close_mn (dtol2 c) (todense n (dto_op P)) n n (dP c) && close_mn (dtol2 c) (todense n (dto_op L)) n n (dL c)
